@@ -3,13 +3,21 @@ package main
 import (
 	"bytes"
 	"fmt"
+	"github.com/samaritan-proxy/samaritan/config"
+	"github.com/samaritan-proxy/samaritan/controller"
+	"github.com/samaritan-proxy/samaritan/pb/common"
+	"github.com/samaritan-proxy/samaritan/pb/config/bootstrap"
+	"github.com/samaritan-proxy/samaritan/pb/config/protocol"
+	"github.com/samaritan-proxy/samaritan/pb/config/service"
 	"math/rand"
 	"net"
 	"os"
+	"strconv"
 	"strings"
 	"sync"
 	"sync/atomic"
 	"time"
+	"verif/internal/tcpsim"
 
 	"github.com/samaritan-proxy/samaritan/cmd/samaritan/hotrestart"
 
@@ -20,6 +28,7 @@ func init() {
 	register(&Check{ID: "C17", Level: "exploration", Drive: c17})
 	apiParts["C17/frames"] = c17Frames
 	apiParts["C17/sequence"] = c17Sequence
+	apiParts["C17/drained-controller"] = c17DrainedController
 }
 
 var c17sock int64
@@ -519,8 +528,85 @@ func c17(r *ev.Run) {
 	r.Assume("the hand-over protocol is a synchronous RPC: the driver plays the new process in lock-step; SIGTERM to self is replaced by a recorded call through the verif hook")
 	runAPIPart(r, "frames", false, nil, 10*time.Minute)
 	runAPIPart(r, "sequence", false, nil, 15*time.Minute)
+	runAPIPart(r, "drained-controller", false, nil, 5*time.Minute)
 	c17Smoke(r)
 	c17RealOldProcess(r)
 	r.Require("sequences", 500)
 	r.Require("smoke_listeners_handed_over", 1)
+}
+
+// c17DrainedController (in-process part): after the drain step - "stop accepting new connections" - the old process keeps running
+// (and keeps consuming configuration events) until it is told to terminate, minutes later by default. A service that is added, or
+// is just being started, after the drain must not accept connections in the old process: they belong to the new one.
+func c17DrainedController(r *ev.Run) {
+	rnd := rand.New(rand.NewSource(r.Seed + 1717))
+	be, err := tcpsim.NewBackend(nil)
+	if err != nil {
+		r.Internal("backend: %v", err)
+		return
+	}
+	defer be.Close()
+	bhost, bportS, _ := net.SplitHostPort(be.Addr)
+	bport, _ := strconv.Atoi(bportS)
+	reps := 3
+	if r.Tier == "thorough" {
+		reps = 20
+	}
+	accepts := func(addr string, within time.Duration) bool {
+		deadline := time.Now().Add(within)
+		for time.Now().Before(deadline) {
+			if c, err := net.DialTimeout("tcp", addr, 200*time.Millisecond); err == nil {
+				ok := echoRoundTrip(c, "ping")
+				c.Close()
+				if ok {
+					return true
+				}
+			}
+			time.Sleep(25 * time.Millisecond)
+		}
+		return false
+	}
+	for rep := 0; rep < reps; rep++ {
+		b := &bootstrap.Bootstrap{Admin: &bootstrap.Admin{Bind: &common.Address{Ip: "127.0.0.1", Port: 1}}}
+		cfg, err := config.New(b)
+		if err != nil {
+			r.Internal("config.New: %v", err)
+			return
+		}
+		ctl, err := controller.New(cfg.Subscribe())
+		if err != nil {
+			r.Internal("controller.New: %v", err)
+			return
+		}
+		ctl.Start()
+		add := func(name string, port int) {
+			cfg.VerifDependencyUpdate([]*service.Service{{Name: name}}, nil)
+			cfg.VerifSvcConfigUpdate(name, &service.Config{Listener: &service.Listener{Address: &common.Address{Ip: "127.0.0.1", Port: uint32(port)}}, Protocol: protocol.TCP})
+			cfg.VerifSvcEndpointUpdate(name, []*service.Endpoint{{Address: &common.Address{Ip: bhost, Port: uint32(bport)}}}, nil)
+		}
+		p1, p2 := freePort(), freePort()
+		n1, n2 := fmt.Sprintf("c17d%d_%d_a", os.Getpid(), rep), fmt.Sprintf("c17d%d_%d_b", os.Getpid(), rep)
+		add(n1, p1)
+		a1, a2 := fmt.Sprintf("127.0.0.1:%d", p1), fmt.Sprintf("127.0.0.1:%d", p2)
+		if !accepts(a1, 3*time.Second) {
+			r.Inconclusive("drained-controller:first-service-not-up")
+			ctl.Stop()
+			continue
+		}
+		ctl.DrainListeners()
+		time.Sleep(time.Duration(rnd.Intn(80)) * time.Millisecond)
+		w := map[string]interface{}{"service_before_the_drain": a1, "service_added_after_the_drain": a2}
+		if accepts(a1, 300*time.Millisecond) {
+			r.Violation("C17:drained-controller:still-accepting", "a service that existed when the listeners were drained still accepts new connections", w)
+		}
+		add(n2, p2)
+		if accepts(a2, 1500*time.Millisecond) {
+			r.Violation("C17:drained-controller:service-added-after-drain-accepts", "the old process accepted and served a new connection for a service that was added after it had drained its listeners (the drain is not remembered)", w)
+		} else {
+			r.Count("services_added_after_the_drain_not_accepting", 1)
+		}
+		r.Case("drained-controller")
+		ctl.Stop()
+	}
+	r.Require("services_added_after_the_drain_not_accepting", 2)
 }
